@@ -69,13 +69,15 @@ CHECKS["C14"] = {
              "Oracle: independent parse of the recorded response (status table copied from the Twirp spec, JSON body, grpc-web frames, base64 chunk-wise, trailer split on CRLF "
              "with no bare CR/LF and exactly the expected keys), handler request/metadata equality with a reference percent-decoder (net/url.PathUnescape). "
              "Sub-check limits: bodies of limit-1/limit/limit+1/... bytes in both directions, dishonest grpc-web length fields, corrupt base64; over-limit must be rejected, never truncated, allocation bounded. "
-             "Non-trivial: an error outcome, >= 2 streamed messages, or metadata present; every limits case."),
+             "Non-trivial: an error outcome, >= 2 streamed messages, or metadata present; every limits case. " 
+             "concurrent: two grpc-web requests (binary or text) in flight on one gateway, the first response held inside its ResponseWriter's first Write while the second is answered completely; each response must decode to exactly its own handler's 1..3 messages."),
     "assumptions": ["responses are captured with net/http/httptest.ResponseRecorder (Result() view, i.e. headers as snapshotted at WriteHeader)",
                     "error-code mapping asserted only where the statement/doc fixes it (not for 130-deep chains or hostile Code methods combined with Twirp codes)",
                     "a grpc-web response of exactly the limit may be rejected (the code uses >=); only truncation or acceptance over the limit is flagged; Twirp responses have no limit in the code and none is demanded"],
     "subs": [
         {"test": "TestC14Gateway", "prop": "C14/gateway", "quick": 60000, "thorough": 3000000, "shards_quick": 8, "shards_thorough": 16},
         {"test": "TestC14Limits", "prop": "C14/limits", "quick": 400, "thorough": 8000, "shards_quick": 4, "shards_thorough": 16},
+        {"test": "TestC14Concurrent", "prop": "C14/concurrent", "quick": 8000, "thorough": 400000, "shards_quick": 4, "shards_thorough": 8},
     ],
     "floors": {"C14/gateway": {"outcome_error": 0.329, "crlf_in_error": 0.03, "meta_malformed": 0.03, "meta": 0.4, "nonutf8_error": 0.03},
                "C14/limits": {"over_limit_rejected": 0.1, "dishonest_length": 0.041}},
